@@ -98,4 +98,64 @@ theorem drainS_heap_independent (H1 H2 : Heap) (links : Option LinkFn) (less : L
       rw [drainS_heap_independent H1 H2 links less sw n _ _ _ (stepHeap_perm links x1 hrest)
         (stepHeap_nodup links x1 rest1 hnd1)]
 
+/-! ### sorted + per-input order determine the list -/
+
+theorem pairLess_total (less : Less) (p q : Nat × Rec) (h1 : pairLess less p q = false) (h2 : pairLess less q p = false) :
+    p.1 = q.1 := by
+  unfold pairLess at h1 h2
+  cases hab : less p.2 q.2 <;> cases hba : less q.2 p.2 <;> simp [hab, hba] at h1 h2
+  omega
+
+/-- two lists of tagged records that are both sorted by (less, id) and contain, for every id, the same
+records in the same order are equal -/
+theorem sorted_stable_unique (less : Less) :
+    ∀ (l1 l2 : List (Nat × Rec)), SortedBy (pairLess less) l1 → SortedBy (pairLess less) l2 →
+      (∀ i : Nat, l1.filter (fun p => p.1 == i) = l2.filter (fun p => p.1 == i)) → l1 = l2
+  | [], l2, _, _, hf => by
+    cases l2 with
+    | nil => rfl
+    | cons b l2' =>
+      have := hf b.1
+      simp at this
+  | a :: l1', l2, hs1, hs2, hf => by
+    cases l2 with
+    | nil =>
+      have := hf a.1
+      simp at this
+    | cons b l2' =>
+      have hab : a = b := by
+        by_cases hid : b.1 = a.1
+        · have := hf a.1
+          simp only [List.filter_cons, beq_self_eq_true, if_true, hid] at this
+          exact (List.cons.inj this).1
+        · exfalso
+          have hb1 : b ∈ l1' := by
+            have hb : b ∈ (a :: l1').filter (fun p => p.1 == b.1) := by
+              rw [hf b.1]; simp
+            have := (List.mem_filter.1 hb).1
+            cases this with
+            | head => exact absurd rfl hid
+            | tail _ h => exact h
+          have ha2 : a ∈ l2' := by
+            have ha : a ∈ (b :: l2').filter (fun p => p.1 == a.1) := by
+              rw [← hf a.1]; simp
+            have := (List.mem_filter.1 ha).1
+            cases this with
+            | head => exact absurd rfl hid
+            | tail _ h => exact h
+          have h1 : pairLess less b a = false := (List.pairwise_cons.1 hs1).1 b hb1
+          have h2 : pairLess less a b = false := (List.pairwise_cons.1 hs2).1 a ha2
+          exact hid (pairLess_total less b a h1 h2)
+      subst hab
+      congr 1
+      refine sorted_stable_unique less l1' l2' (List.pairwise_cons.1 hs1).2 (List.pairwise_cons.1 hs2).2 ?_
+      intro i
+      have := hf i
+      simp only [List.filter_cons] at this
+      by_cases hi : (a.1 == i) = true
+      · simp only [hi, if_true] at this
+        exact (List.cons.inj this).2
+      · have hi' : (a.1 == i) = false := by cases h : (a.1 == i) <;> simp_all
+        simpa only [hi', Bool.false_eq_true, if_false] using this
+
 end Hts.Model.Merger
